@@ -647,7 +647,13 @@ func RaceBody(reps int) {
 				vsync.ArmDelay(-1)
 				// the invariants are judged on the free-running executions too (a sample, not an enumeration)
 				for _, v := range r.judge(sc) {
-					if !strings.HasPrefix(v[0], "malformed-request") {
+					// The pass has one virtual clock for all repetitions, and goroutines left by earlier repetitions (a renewal
+					// loop paused by the injected delay) may still create timers on it or be woken by it: a later repetition's
+					// "advance to the next timer" can then land on a stale timer. Failures whose stated cause is time (ticket
+					// expired / not yet valid, clock skew) are therefore not judged on these free-running executions; the
+					// controlled exploration, with a clock per execution, judges them.
+					timeCaused := strings.Contains(v[1], "KRB_AP_ERR_TKT_EXPIRED") || strings.Contains(v[1], "KRB_AP_ERR_TKT_NYV") || strings.Contains(v[1], "KRB_AP_ERR_SKEW") || strings.Contains(strings.ToLower(v[1]), "clock skew")
+					if !strings.HasPrefix(v[0], "malformed-request") && !(strings.HasPrefix(v[0], "operation-fails") && timeCaused) {
 						fmt.Printf("RACE-INVARIANT %s:%s\t%s\n", v[0], sc.Name, strings.ReplaceAll(v[1], "\n", " "))
 					}
 				}
